@@ -172,3 +172,14 @@ Proof.
   pose proof (admission_keeps _ _ _ _ _ _ Ha) as K. rewrite <- (return_action_closing s code Hs).
   destruct s; simpl in K |- *; try (rewrite K; reflexivity). congruence.
 Qed.
+
+(* a non-matching catch changes nothing: emitting an errored task none of whose catches takes the error (no catch for the
+   code, or the one catch already used) writes no task state and no error, and appends only events that are no state writes *)
+Theorem uncaught_emit_changes_nothing f e j : j < ntasks e -> st e j = SError -> uncaught e j ->
+  (forall t, st (emit f e j) t = st e t /\ t_err (tk (emit f e j) t) = t_err (tk e t) /\ t_catch_done (tk (emit f e j) t) = t_catch_done (tk e t)) /\
+  exists l, trace (emit f e j) = trace e ++ l /\ forallb (fun x => negb (is_trans x)) l = true.
+Proof.
+  intros Hj Hs Hu. destruct (emit_xext_uncaught f e j Hj Hs Hu) as [(H1 & (l & Tl & Fl & _) & _) _]. split.
+  - intros t. destruct (H1 t) as (a & b & c & _). auto.
+  - exists l. auto.
+Qed.
